@@ -99,6 +99,12 @@ EXPRESSION_PATTERN = re.compile(
     r"^[A-Za-z_][A-Za-z0-9_.\-]*(?<!-)([" + _UNICODE_OPS + r"][A-Za-z_][A-Za-z0-9_.\-]*(?<!-))+\Z"
 )
 
+# A reserved word (true/false/null/vs) at a token start - the start of the value or right
+# after an expression operator - followed by a non-word character is lexed as the literal
+# or the tension operator, not as part of an identifier ("true.x" -> BOOLEAN + ".x",
+# "A@vs" -> A @ TENSION). Such values must be quoted to survive a round trip.
+_RESERVED_AT_TOKEN_START = re.compile(r"(?:^|[" + _UNICODE_OPS + r"])(?:true|false|null|vs)(?![A-Za-z0-9_])")
+
 
 def _sort_children_by_key(children: list[Any]) -> list[Any]:
     """Sort AST children by key for key_sorting option.
@@ -141,6 +147,10 @@ def needs_quotes(value: Any) -> bool:
     # Reserved words need quotes to avoid becoming literals or operators
     # This includes boolean/null literals and operator keywords
     if value in ("true", "false", "null", "vs"):
+        return True
+
+    # Reserved word at a token start inside a longer value (e.g. "true.", "vs-1", "A@null")
+    if _RESERVED_AT_TOKEN_START.search(value):
         return True
 
     # Issue #181: Variables ($VAR, $1:name) don't need quotes
